@@ -20,6 +20,29 @@ CHECKS = {
         design_ref='5/C17'),
 }
 
+CHECKS['C15'] = dict(
+    category='proof',
+    technique='effects inventory + points-to of the ifunc statics over type-checked crate and MIR; auto-trait queries; compile_fail witnesses',
+    text="Decides that no schedule can change an answer because no shared mutable state exists: every static is an "
+         "AtomicPtr accessed only by load/store whose every possible value (initialiser + traced stores) is one of the "
+         "dispatcher's own identically-typed sibling functions; every type is Freeze; no raw-pointer writes; every public "
+         "type is Send+Sync; per-search state is never reachable from a shared finder; the raw-pointer iterator cannot "
+         "outlive its haystack (E0597 witness + twin). Holds for all schedules and thread counts at once. Relative to "
+         "C09/C01: that the interchangeable ifunc members compute the same function.",
+    note=TB + "atomic word load/store is tear-free; any new non-ifunc static or interior mutability is reported even if benign (sufficient-condition rule).",
+    design_ref='5/C15')
+CHECKS['C16'] = dict(
+    category='proof',
+    technique='receiver/Freeze/effects inventory (purity by types) + inter-procedural derived-from dataflow for field-wise copies + compile_fail witnesses',
+    text="PURE: search methods take &self, every type reachable from a finder is Freeze, and the crate has no other "
+         "mutable state (C15 inventory), so a result can depend only on *self and the haystack, for every history of "
+         "earlier searches. FRESH: Finder::find's PrefilterState comes from a nullary constructor in its own frame. "
+         "COPY/NEEDLE: clone/as_ref/into_owned of finders and iterators build each field from the same field of self "
+         "only (no constants, no other field, no arithmetic), needle() returns the stored needle. Borrow witnesses: a "
+         "borrowed finder/iterator cannot outlive its needle, the into_owned twin compiles.",
+    note=TB + "leaf clone/deref/From<&[u8]> of core/alloc are faithful copies; equality of behaviour of a field-wise copy is by it being the same value.",
+    design_ref='5/C16')
+
 NOT_YET = "check not built yet (build in progress, see DESIGN.md section 8 build order)"
 NA = {}
 
